@@ -18,7 +18,7 @@ BUILTINS = {'full_like', 'solve', 'arange', 'atleast_1d', 'len', 'range', 'enume
             'empty_like', 'zeros_like', 'sum', 'tuple', 'list', 'isinstance', 'print', 'zip', 'floor', 'sqrt',
             'exp', 'tanh', 'cosh', 'cos', 'sin', 'RuntimeError', 'ValueError', 'AssertionError', 'NotImplementedError',
             'str', 'reversed', 'sorted', 'all', 'any', 'prod', 'pi', 'mod', 'fabs', 'log', 'dict', 'set'}
-SPEC_BUILTINS = {'interp_val', 'holds', 'valid', 'field_of', 'layout_of', 'same_content', 'distinct_bufs', 'same_buf', 'bufview', 'name_id', 'split', 'uknots', 'forall', 'exists', 'sum_', 'implies', 'and_', 'iff', 'old', 'ite_', 'shape', 'let', 'select', 'real', 'fdiv', 'fmod', 'trunc'}
+SPEC_BUILTINS = {'coll_trace', 'interp_val', 'holds', 'valid', 'field_of', 'layout_of', 'same_content', 'distinct_bufs', 'same_buf', 'bufview', 'name_id', 'split', 'uknots', 'forall', 'exists', 'sum_', 'implies', 'and_', 'iff', 'old', 'ite_', 'shape', 'let', 'select', 'real', 'fdiv', 'fmod', 'trunc'}
 
 import vf.execu as _execu
 _execu.BUILTINS = BUILTINS
@@ -31,6 +31,8 @@ class Engine(Exec):
     # calls
     # ------------------------------------------------------------------
     def call_value(self, f, args, kwargs, st, fr, node):
+        if isinstance(f, V.Opaque):
+            return V.Opaque()
         if callable(f) and not isinstance(f, FunVal):
             return f(*args)
         if not isinstance(f, FunVal):
@@ -43,6 +45,8 @@ class Engine(Exec):
             return self.call_pymethod(f, args, kwargs, st, fr, node)
         if f.kind == 'bufmethod':
             return self.buf_method(st, fr, f, args)
+        if f.kind == 'mpi':
+            return self.mpi_call(f, args, kwargs, st, fr, node)
         if f.kind in ('repo', 'method', 'param', 'class'):
             return self.call_function(f, args, kwargs, st, fr, node)
         raise OutOfReach('call kind ' + f.kind)
@@ -73,6 +77,11 @@ class Engine(Exec):
                 return r
         if name.endswith('.warn') or name == 'warn':
             return None
+        if name == 'coll_trace':
+            return list(st.ghost.get('trace', ()))
+        if name == 'atleast_1d':
+            a = args[0]
+            return list(a) if isinstance(a, (list, tuple)) else [a]
         if name == 'bufview':
             return BufView(self.as_ref(args[0]))
         if name == 'name_id':
@@ -265,6 +274,36 @@ class Engine(Exec):
             return f(M.term, ZR(x))
         f = V.uf('SV' + kind, M.term.sort(), INT, REAL, REAL)
         return f(M.term, ZI(e), ZR(x))
+
+    MPI_SIG = {   # collective -> how its "uniform" signature (everything that must agree on all members) is read off the call
+        'reduce': lambda a, k: ('reduce', k.get('op', a[1] if len(a) > 1 else 'SUM'), k.get('root', a[2] if len(a) > 2 else 0)),
+        'Reduce': lambda a, k: ('Reduce', k.get('op', a[2] if len(a) > 2 else 'SUM'), k.get('root', a[3] if len(a) > 3 else 0)),
+        'allreduce': lambda a, k: ('allreduce', k.get('op', a[1] if len(a) > 1 else 'SUM')),
+        'gather': lambda a, k: ('gather', k.get('root', a[1] if len(a) > 1 else 0)),
+        'Gatherv': lambda a, k: ('Gatherv', k.get('root', a[2] if len(a) > 2 else 0)),
+        'bcast': lambda a, k: ('bcast', k.get('root', a[1] if len(a) > 1 else 0)),
+        'Bcast': lambda a, k: ('Bcast', k.get('root', a[1] if len(a) > 1 else 0)),
+        'Alltoall': lambda a, k: ('Alltoall',), 'Allgather': lambda a, k: ('Allgather',), 'Barrier': lambda a, k: ('Barrier',),
+        'Split': lambda a, k: ('Split',), 'Create_cart': lambda a, k: ('Create_cart', tuple(a[0]) if isinstance(a[0], (list, tuple)) else a[0]),
+        'Sub': lambda a, k: ('Sub', tuple(a[0]) if isinstance(a[0], (list, tuple)) else a[0]),
+    }
+
+    def mpi_call(self, f, args, kwargs, st, fr, node):
+        """Calls on a communicator object: collectives are appended to the ghost trace with their uniform signature."""
+        name, comm = f.name, f.ref
+        if name in self.MPI_SIG:
+            sig = self.MPI_SIG[name](args, kwargs)
+            sig = tuple(x.name if isinstance(x, FunVal) else x for x in sig)
+            cid = st.objs[comm.oid].get('cid', comm.oid)
+            st.ghost['trace'] = tuple(st.ghost.get('trace', ())) + (((cid,) + sig),)
+            if name in ('Create_cart', 'Sub', 'Split'):
+                o = Obj(('<mpi>', 'Comm'))
+                st.objs[o.oid] = {'cid': ('derived', cid, name, len(st.ghost['trace']))}
+                return o
+            return V.Opaque()
+        if name in ('Get_rank', 'Get_size', 'Get_coords'):
+            return V.Opaque()
+        raise OutOfReach('communicator method ' + name)
 
     def intern_name(self, s):
         """Layout names (strings) as integer ids in ghost contents."""
@@ -604,6 +643,17 @@ class Engine(Exec):
         if m is None:
             raise OutOfReach('statement %s at line %d' % (type(s).__name__, s.lineno))
         self.ctx.reached.add((fr.fname, s.lineno))
+        if self.trace_mode(fr) and isinstance(s, (ast.Assign, ast.AugAssign, ast.Expr, ast.AnnAssign)) and not _execu.has_collective(s):
+            # trace abstraction: a statement without collectives that is not modelled only makes its targets opaque
+            snap = st.fork()
+            try:
+                return m(s, st, fr)
+            except (OutOfReach, TypeError, AttributeError, KeyError, IndexError, ValueError):
+                st.__dict__.update(snap.__dict__)
+                names, arrs, calls = assigned_names([s])
+                for n in names:
+                    st.env[n] = V.Opaque()
+                return [st]
         return m(s, st, fr)
 
     def st_Pass(self, s, st, fr):
@@ -1032,7 +1082,24 @@ class Engine(Exec):
         finally:
             fr.spec_only = old
 
+    def abstract_loop(self, s, st, fr):
+        """Trace abstraction: a loop without collectives only makes the variables it assigns opaque."""
+        names, arrs, calls = assigned_names([s])
+        for n in names:
+            st.env[n] = V.Opaque()
+        return [st]
+
     def st_For(self, s, st, fr):
+        if self.trace_mode(fr) and not _execu.has_collective(s):
+            snap = st.fork()
+            try:
+                return self.st_For_concrete(s, st, fr)
+            except (OutOfReach, TypeError, AttributeError, KeyError, IndexError, ValueError):
+                st.__dict__.update(snap.__dict__)
+                return self.abstract_loop(s, st, fr)
+        return self.st_For_concrete(s, st, fr)
+
+    def st_For_concrete(self, s, st, fr):
         lo, hi, bind, iname = self.iter_spec(s, st, fr)
         lc, key = self.loop_contract(s, fr)
         if lc is None:
@@ -1113,6 +1180,8 @@ class Engine(Exec):
         return states + done
 
     def st_While(self, s, st, fr):
+        if self.trace_mode(fr) and not _execu.has_collective(s) and (fr.contract is None or not fr.contract.loops):
+            return self.abstract_loop(s, st, fr)
         lc, key = self.loop_contract(s, fr)
         if lc is None:
             # bounded unrolling only when the test is concrete
